@@ -345,6 +345,47 @@ func init() {
 			obj := m.newObj(&StructV{F: []Value{wrapped, BVC(64, uint64(m.objSeq))}}, "fmt.Errorf")
 			return IfaceV{T: m.W.FmtErrType, V: Ptr{O: obj}}
 		},
+		"errors.As": func(m *Machine, _ *Thread, _ *Frame, a []Value, _ ssa.Value) Value {
+			// errors.As(err, target): walk the Unwrap chain; the first error assignable to *target is stored
+			err, ok := a[0].(IfaceV)
+			tgt, ok2 := a[1].(IfaceV)
+			if !ok || !ok2 || tgt.T == nil {
+				panic(m.unsupported("errors.As with unexpected arguments"))
+			}
+			pt, isPtr := tgt.T.Underlying().(*types.Pointer)
+			if !isPtr {
+				panic(m.goPanic("errors.As: target must be a non-nil pointer"))
+			}
+			elem := pt.Elem()
+			for i := 0; i < 8 && err.T != nil; i++ {
+				match := false
+				if it, isIface := elem.Underlying().(*types.Interface); isIface {
+					match = types.Implements(err.T, it)
+				} else {
+					match = types.Identical(err.T, elem)
+				}
+				if match {
+					if _, isIface := elem.Underlying().(*types.Interface); isIface {
+						m.store(tgt.V.(Ptr), err)
+					} else {
+						m.store(tgt.V.(Ptr), err.V)
+					}
+					return True
+				}
+				// unwrap: only the fmt.Errorf model wraps
+				if types.Identical(err.T, m.W.FmtErrType) {
+					w := m.load(err.V.(Ptr)).(*StructV).F[0]
+					next, isErr := w.(IfaceV)
+					if !isErr {
+						break
+					}
+					err = next
+					continue
+				}
+				break
+			}
+			return False
+		},
 		"fmt.Sprintf": func(m *Machine, _ *Thread, _ *Frame, a []Value, _ ssa.Value) Value {
 			return m.sprintf(a[0].(*Term), m.variadicRaw(a[1]))
 		},
